@@ -482,6 +482,8 @@ def oracle_selfcheck(ctx):
 
 
 def run(ctx: Ctx):
+    from vf.prove import prove
+    prove(ctx, ["specs.misc"], "C15")  # deductive part (specs/misc.py)
     from vf.pool import pmap
     use_repo()
     try:
